@@ -46,6 +46,13 @@ def gen_cases(tier, seed):
         if c.get('R0_form') in ('set', 'iterator', 'generator'):
             c['R0_form'] = 'list'
         c['ic_defaultdict'] = (k % 5 == 4)
+        if sim == 'Gillespie_complex_contagion' and (k // len(simreg.ALL_SIMS)) % 2 == 0:
+            # a user model whose transition_choice sometimes answers with the node's current status (a failed attempt): such a null event is an
+            # event of the run in both return modes (a row of the arrays, an entry of the node's history)
+            c['cmodel'] = 'lazy'
+            c['IC'] = [c['IC'][i] if i else 1 for i in range(len(c['IC']))]
+            if c.get('tmax') == 'inf':
+                c['tmax'] = c['tmin'] + 4
         if sim == 'Gillespie_simple_contagion' and c['kind'] == 'modes' and r.random() < 0.5 and len(c['spec']['statuses']) >= 2:
             # only some statuses reported (SEIR reporting S and R): both return modes still describe the same run, event by event
             k2 = len(c['spec']['statuses'])
